@@ -2,6 +2,7 @@ package rules
 
 import (
 	"go/types"
+	"golang.org/x/tools/go/ssa"
 
 	"wsverif/core"
 )
@@ -15,6 +16,8 @@ func c19(c *Ctx) {
 	r.Rule("C19.key-agrees", "WritePreparedMessage: prepareKey.compress is true exactly under [newCompressionWriter != nil && enableWriteCompression && isData(pm.messageType)] (the condition under which NextWriter compresses), isServer and compressionLevel are loads of the live Conn fields")
 	r.Rule("C19.key-complete", "every Conn field read on the call-graph cone of WriteMessage is either set from the key by frame() or in the reviewed list of fields that cannot influence the bytes; frame() configures isServer, compressionLevel, newCompressionWriter (iff key.compress) and enableWriteCompression = true, and renders with WriteMessage(pm.messageType, pm.data)")
 	r.Rule("C19.payload-copy", "NewPreparedMessage renders once with {isServer: true, compress: false} and re-points pm.data at a suffix of that rendered frame (not the caller's slice); prepareConn.Write copies what it is given into its own buffer")
+	r.Rule("C19.single-frame", "the {server, uncompressed} rendering NewPreparedMessage snapshots the payload from is a single frame: every WriteMessage path that knows isServer and newCompressionWriter == nil emits exactly one final frame and never streams through NextWriter")
+	preparedSingleFrame(c, "C19.single-frame")
 	r.Rule("C19.cache", "PreparedMessage.frames is accessed only between pm.mu.Lock and Unlock; frame.data is assigned only inside the once.Do closure and returned only after once.Do on that frame")
 	r.Rule("C19.write-path", "WritePreparedMessage writes the cached bytes through Conn.write (lock, sticky-error re-check, close-sent recording: C09 rules on write) with the frame type frame() returned, inside the isWriting bracket, and returns its error")
 	r.Table("Conn fields read while rendering that cannot influence the bytes: writeBuf (fixed size in frame()), mu, conn (private), writePool (nil), writeDeadline, writeErr, isWriting, writer, writeBufSize")
@@ -202,6 +205,9 @@ func c19(c *Ctx) {
 				ok, why = false, "NewPreparedMessage does not render a frame / set pm.data"
 				return
 			}
+			if isFreshCopyOf(p, last, npm.Params[1]) {
+				return // an independent copy taken directly from the caller's slice
+			}
 			fd := p.X.ExtractOf(fr.Result, 1, nil)
 			if !(last.Kind == core.KSlice && last.Args[0] == fd) {
 				ok, why = false, "pm.data still aliases the caller's slice after NewPreparedMessage (later modification by the caller changes what is sent)"
@@ -349,4 +355,77 @@ func c19(c *Ctx) {
 		t.classify("C19.write-path")
 		t.checkSection(wr, "C19.write-path", "C19.write-path")
 	}
+}
+
+// preparedSingleFrame: NewPreparedMessage takes the payload snapshot as the
+// last len(data) bytes of the {server, uncompressed} rendering, which is only
+// the payload if that rendering is one frame.  Every path of WriteMessage that
+// knows the connection to be a server without a compression writer therefore
+// has to emit the message as a single final frame (no NextWriter streaming).
+func preparedSingleFrame(c *Ctx, rule string) {
+	wm := c.fn("(*Conn).WriteMessage")
+	if !pmSnapshotIsTail(c, rule) {
+		c.R.Pass(rule, shortFn(wm), "server-uncompressed-is-one-frame", wm.Pos(), "NewPreparedMessage keeps an independent copy of the payload; the shape of the rendering does not matter")
+		return
+	}
+	flush := c.fn("(*messageWriter).flushFrame")
+	nw := c.fn("(*Conn).NextWriter")
+	isSrv, ncw := c.P.Field("Conn", "isServer"), c.P.Field("Conn", "newCompressionWriter")
+	ok, why := true, "an uncompressed server message is rendered as exactly one final frame, whatever its size (the payload snapshot of NewPreparedMessage is the tail of that frame)"
+	n := 0
+	c.explore(rule, wm, core.Opts{RecordLoads: true}, func(p *core.Path) {
+		if p.End != core.EndReturn {
+			return
+		}
+		srv := hasLit(p, len(p.Lits), true, func(t *core.Term) bool { _, is := fieldLoad(t, isSrv); return is })
+		noCW := hasLit(p, len(p.Lits), true, func(t *core.Term) bool {
+			return isEqNil(t, func(y *core.Term) bool { _, is := fieldLoad(y, ncw); return is })
+		})
+		if !srv || !noCW {
+			return
+		}
+		n++
+		flushes := 0
+		for i := range p.Events {
+			ev := &p.Events[i]
+			if callsStatic(ev, nw) {
+				ok, why = false, "a path for an uncompressed server message (returning at "+c.P.Pos(p.Ret.Pos())+") streams through NextWriter: the message may be split into several frames, and NewPreparedMessage's payload snapshot (tail of the rendered bytes) would contain frame headers"
+			}
+			if callsStatic(ev, flush) && len(ev.Args) == 3 {
+				flushes++
+				if b, isB := ev.Args[1].BoolVal(); !isB || !b {
+					ok, why = false, "an uncompressed server message is flushed as a non-final frame at "+c.P.Pos(ev.Instr.Pos())
+				}
+			}
+		}
+		if flushes > 1 {
+			ok, why = false, "an uncompressed server message is written as more than one frame"
+		}
+	})
+	c.R.Check(rule, shortFn(wm), "server-uncompressed-is-one-frame", wm.Pos(), ok && n > 0, why)
+}
+
+// isFreshCopyOf: v is append([]byte(nil), data...) of the parameter.
+func isFreshCopyOf(p *core.Path, v *core.Term, data *ssa.Parameter) bool {
+	v = strip(v)
+	return v.Kind == core.KAppend && len(v.Args) == 2 && v.Args[0].IsNil() && strip(v.Args[1]) == p.X.ParamTerm(data)
+}
+
+// pmSnapshotIsTail: NewPreparedMessage points pm.data at a slice of a rendered frame on some successful path.
+func pmSnapshotIsTail(c *Ctx, rule string) bool {
+	npm := c.fn("NewPreparedMessage")
+	pmData := c.P.Field("PreparedMessage", "data")
+	tail := false
+	c.explore(rule, npm, core.Opts{NonNilOnNilErr: true}, func(p *core.Path) {
+		if p.End != core.EndReturn {
+			return
+		}
+		for i := range p.Events {
+			ev := &p.Events[i]
+			if ev.Kind == core.EvStore && isFieldAddr(ev.Addr, pmData) && !isFreshCopyOf(p, ev.Val, npm.Params[1]) && strip(ev.Val).Kind != core.KParam {
+				tail = true
+			}
+		}
+	})
+	return tail
 }
